@@ -3,6 +3,7 @@ package kit
 import (
 	"crypto/ecdsa"
 	"fmt"
+	"runtime/debug"
 	"os"
 	"path/filepath"
 	"strings"
@@ -75,6 +76,9 @@ type Node struct {
 	Failure  string // CONSENSUS FAILURE / Crit text, set by the log trap
 	failMu   sync.Mutex
 	InitialS cstate.LatestBlockState
+	// LoadedHeight is the height of the consensus state as loaded from disk (before a
+	// stored-but-unapplied block is applied at start-up).
+	LoadedHeight uint64
 }
 
 // BlockOpsRec wraps the real BlockOperations to record what is saved/applied
@@ -104,6 +108,12 @@ func (b *BlockOpsRec) SavedCopy() []SavedBlock {
 	defer b.mu.Unlock()
 	return append([]SavedBlock(nil), b.Saved...)
 }
+
+// FinishInterruptedCommit mirrors whether mainchain/backend.go New() applies a stored but
+// unapplied block before starting consensus. It is detected from the product source at
+// build time by the engine (see netsim's TestMain) so that the kit always does what
+// backend.go does.
+var FinishInterruptedCommit bool
 
 // CritPanic is the sentinel the log trap panics with in place of os.Exit(1).
 type CritPanic struct{ Msg string }
@@ -197,7 +207,7 @@ func NewNode(cfg NodeCfg) (n *Node, err error) {
 	InstallLogTrap()
 	defer func() {
 		if r := recover(); r != nil {
-			err = fmt.Errorf("panic while building node: %v", r)
+			err = fmt.Errorf("panic while building node: %v\n%s", r, debug.Stack())
 		}
 	}()
 	tag := fmt.Sprintf("n%d.%d", cfg.ID, cfg.Epoch)
@@ -237,6 +247,24 @@ func NewNode(cfg NodeCfg) (n *Node, err error) {
 	state, err := n.Store.LoadStateFromDBOrGenesisDoc(gen)
 	if err != nil {
 		return nil, fmt.Errorf("LoadStateFromDBOrGenesisDoc: %w", err)
+	}
+	// mirror of backend.go: finish a commit that a crash interrupted (present in the product
+	// since the fix for the saved-but-unapplied block; guarded so the kit also builds against trees without it)
+	n.LoadedHeight = state.LastBlockHeight
+	if os.Getenv("VERIF_DEBUG_KIT") != "" {
+		fmt.Printf("      KIT node %d: finish=%v state=%d meta(next)=%v bo.height=%d\n", cfg.ID, FinishInterruptedCommit, state.LastBlockHeight, n.BOper.LoadBlockMeta(state.LastBlockHeight+1) != nil, n.BOper.Height())
+	}
+	if FinishInterruptedCommit {
+		if meta := n.BOper.LoadBlockMeta(state.LastBlockHeight + 1); meta != nil {
+			n.Exec.SetEventBus(n.Bus)
+			block := n.BOper.LoadBlock(meta.Header.Height)
+			if n.BOper.Height() < block.Height() {
+				n.BOper.SaveBlock(block, block.MakePartSet(types.BlockPartSizeBytes), n.BOper.LoadSeenCommit(block.Height()))
+			}
+			if state, _, err = n.Exec.ApplyBlock(state, meta.BlockID, block); err != nil {
+				return nil, fmt.Errorf("finishing interrupted commit: %w", err)
+			}
+		}
 	}
 	n.InitialS = state
 	fs := &configs.FastSyncConfig{Enable: cfg.FastSync, MaxPeers: 10, TargetPending: 10, PeerTimeout: 15 * time.Second, MinRecvRate: 0}
